@@ -265,4 +265,12 @@ theorem translated_abort_is_model (s : St) (e : Err) :
   unfold abortView abortActs St.abort St.addWake
   cases he : s.error <;> cases hp : s.phase <;> simp [he] <;> (try split) <;> simp
 
+/-- the error is recorded BEFORE the cancellation of the simulation task is requested (an exception raised
+    by `cancel()`, e.g. on a closed event loop, cannot leave the circuit "ready" without an error): the
+    action list is `[setError]`, `[setError, cancelTask]`, or nothing but the early return -/
+theorem translated_abort_records_error_first (s : St) :
+    abortView s = [.ret none] ∨ abortView s = [.setError] ∨ abortView s = [.setError, .cancelTask] := by
+  unfold abortView abortActs
+  cases s.error <;> cases hp : s.phase <;> simp
+
 end Edzed.TrTie
